@@ -243,6 +243,9 @@ namespace bloch::runtime {
         // constructor, field initialiser, destructor). Name lookup never looks below the
         // innermost frame's base: scoping is lexical, a callee cannot see its caller's locals.
         std::vector<size_t> m_frameBases;
+        // A runtime error raised by a user destructor cannot propagate out of the smart-pointer
+        // deleter that runs it; it is parked here and rethrown at the next statement boundary.
+        std::optional<support::BlochError> m_pendingDestructorError;
         Value m_returnValue;
         bool m_hasReturn = false;
         std::unordered_map<const Expression*, std::vector<int>> m_measurements;
